@@ -72,7 +72,7 @@ func main() {
 	list := flag.Bool("list", false, "print the job names and exit")
 	workers := flag.Int("workers", runtime.NumCPU(), "")
 	noReplay := flag.Bool("noreplay", false, "skip the real-loop replay of every state (debugging only)")
-	grid := flag.String("grid", "", "run a bounded-exhaustive grid check instead of a BFS job: c04 | c05 | c06")
+	grid := flag.String("grid", "", "run a bounded-exhaustive grid check instead of a BFS job: c04 | c05 | c06 | c08")
 	shard := flag.Int("shard", 0, "")
 	nshards := flag.Int("nshards", 1, "")
 	prof := flag.String("cpuprofile", "", "")
@@ -104,6 +104,8 @@ func main() {
 				gridC05(res, *tier, *shard, *nshards)
 			case "c06":
 				gridC06(res, *tier, *shard, *nshards)
+			case "c08":
+				gridC08(res, *tier, *shard, *nshards)
 			}
 		}()
 		res.Write(*outPath)
